@@ -651,7 +651,9 @@ pub fn run(args: &Args) -> i32 {
 
     // ---- tables
     let prow = params_rows(maxb2);
-    let mrow = pm1_rows(maxb2.max(100_000));
+    // the chirp-z path of P-1 starts above 8e4: its rows up to 1e6 are driven in quick as well (the row whose
+    // reported bound is closest to what the grid covers, (978e3, 510, 2048), is among them)
+    let mrow = pm1_rows(maxb2.max(1_000_000));
     let thr = pollard_pm1::vhook::multieval_threshold();
     for r in &prow {
         out.ev(json!({"op": "row", "case": format!("params/{}", r.b2), "table": "params", "b2": r.b2, "d1": r.d1, "d2": r.d2}));
@@ -747,7 +749,7 @@ pub fn run(args: &Args) -> i32 {
         out.ev(merge(json!({"op": "grid", "case": cname, "m": m, "b1": b1, "nd": nbig.to_string()}), &grid));
         let b2rep = grid["b2rep"].as_u64().unwrap();
         let b2eff = if m == "pm1" { b2rep.min(b2 as u64) } else { b2rep };
-        if b2eff > inst_maxb2 {
+        if b2eff > inst_maxb2 && !(m == "pm1" && b2eff <= 1_000_000) {
             continue;
         }
         let (d1, d2) = (grid["d1"].as_u64().unwrap_or(0), grid["d2"].as_u64().unwrap_or(0));
@@ -882,8 +884,17 @@ pub fn run(args: &Args) -> i32 {
             }
         }
         // gcd_factors on cumulative products in which chosen primes enter at chosen positions
-        for i in 0..(if thorough { 200 } else { 60 }) {
-            let np = 2 + i % 3;
+        // deterministic family first: two primes entering at consecutive positions (i, i+1) of every short length
+        let mut consecutive: Vec<(usize, i64)> = vec![];
+        for len in [3usize, 4, 5, 8, 9, 16, 17] {
+            for a in 0..len as i64 - 1 {
+                consecutive.push((len, a));
+            }
+        }
+        let nrand = if thorough { 200 } else { 60 };
+        for i in 0..(nrand + consecutive.len()) {
+            let forced = if i >= nrand { Some(consecutive[i - nrand]) } else { None };
+            let np = if forced.is_some() { 2 } else { 2 + i % 3 };
             let mut ps: Vec<Uint> = vec![];
             while ps.len() < np {
                 let b = [16u32, 31, 40, 61][rng.gen_range(0..4)];
@@ -893,9 +904,12 @@ pub fn run(args: &Args) -> i32 {
                 }
             }
             let n = ps.iter().fold(Uint::ONE, |a, b| a * *b);
-            let len = [1usize, 2, 3, 5, 8, 17, 64][i % 7];
+            let len = match forced { Some((l, _)) => l, None => [1usize, 2, 3, 5, 8, 17, 64][i % 7] };
             // position at which each prime enters (same position for two primes in some cases; -1: never)
-            let pos: Vec<i64> = (0..np).map(|j| if i % 5 == 4 && j == 1 { -1 } else if i % 4 == 3 && j > 0 { 0i64.max(len as i64 / 2) } else { rng.gen_range(0..len as i64) }).collect();
+            let pos: Vec<i64> = match forced {
+                Some((_, a)) => vec![a, a + 1],
+                None => (0..np).map(|j| if i % 5 == 4 && j == 1 { -1 } else if i % 4 == 3 && j > 0 { 0i64.max(len as i64 / 2) } else { rng.gen_range(0..len as i64) }).collect(),
+            };
             let zn = ZmodN::new(n);
             let mut vals: Vec<MInt> = vec![];
             let mut acc = Uint::ONE;
@@ -925,7 +939,8 @@ pub fn run(args: &Args) -> i32 {
             });
             let plain: Vec<Value> = vals.iter().map(|v| dn(&zn.to_int(*v))).collect();
             out.ev(merge(json!({"op": "split", "case": format!("gcdf/{}", i), "via": "gcd_factors", "n": dn(&n), "nd": n.to_string(),
-                "first": plain[0], "last": plain[plain.len() - 1], "len": len}), &r.unwrap_or_else(|e| e)));
+                "first": plain[0], "last": plain[plain.len() - 1], "len": len,
+                "primes": ps.iter().map(dn).collect::<Vec<_>>(), "pos": pos}), &r.unwrap_or_else(|e| e)));
         }
     }
 
